@@ -65,7 +65,7 @@ fn arb_opposed(a: &Tt) -> BoxedStrategy<Tt> {
 }
 
 fn strategy_ord(_t: Tier) -> BoxedStrategy<OrdCase> {
-    arb_fam_n(0, 12)
+    arb_fam_n(0, 13)
         .prop_flat_map(|(fam, n)| {
             arb_tt(n).prop_flat_map(move |a| {
                 let a0 = a.clone();
@@ -88,7 +88,7 @@ fn strategy_ord(_t: Tier) -> BoxedStrategy<OrdCase> {
                     // tables of other sizes (dynamic family only); often with the same low block
                     let a2 = a.clone();
                     vec(
-                        (0usize..=12).prop_flat_map(move |n2| {
+                        (0usize..=13).prop_flat_map(move |n2| {
                             let a3 = a2.clone();
                             prop_oneof![arb_tt(n2), Just(Tt::from_words(n2, a3.w.clone()))]
                         }),
@@ -377,7 +377,7 @@ fn arb_succ_tt(n: usize) -> BoxedStrategy<Tt> {
 }
 
 fn strategy_succ(_t: Tier) -> BoxedStrategy<SuccCase> {
-    arb_fam_n(0, 12)
+    arb_fam_n(0, 13)
         .prop_flat_map(|(fam, n)| (arb_succ_tt(n), 0usize..=320).prop_map(move |(t, pull)| SuccCase { fam, t, pull }))
         .boxed()
 }
